@@ -90,6 +90,23 @@ for _pid, (_spec, _gen, _trace, _txt, _note) in PURE.items():
     CHECKS[_pid] = dict(engine="pure-replay", technique=PURE_TECH.format(spec=_spec, gen=_gen, trace=_trace),
                         level="model_checking", text=_txt, design_ref=f"DESIGN.md §3 {_pid}", note=_note)
 
+CHECKS["C14"] = dict(
+    engine="writers-replay",
+    technique="TLA+ definition of the facts of a stream (Reporters.tla) over TLC-generated sequential streams (SeqGen.tla); "
+              "each stream is replayed into the real terminal / libtest / Cucumber-JSON / JUnit writers (behind Normalize); "
+              "their output is parsed back by independent parsers and the parsed facts, pairing and totals are validated "
+              "by TLC (Trace_Reporters.tla)",
+    level="model_checking",
+    text="for every sampled sequential stream (retries, hook failures, skipped / failed / not-found steps, parser errors, "
+         "truncated fail-fast streams, features with and without a source path, reporter options) the bag of "
+         "(scenario, step | hook | parser error, status) facts parsed back from each of the four reports must equal the "
+         "bag defined by the stream; documents must be well-formed, every libtest started line must have exactly one "
+         "result of the same name, suite totals and verdict must agree with the entries, JUnit testcase status with its "
+         "lines.  Known findings: F5 (libtest names of path-less features), F8 (JUnit lists no steps of a skipped testcase).",
+    design_ref="DESIGN.md §3 C14",
+    note="facts carry no attempt number (bag semantics); plain-token names in this round; parsers trusted; simulation sampling",
+)
+
 RUNNER_TECH = ("TLA+ model of the executor design (Runner.tla) model-checked by TLC against the property "
                "monitor RunnerObs.tla; the real runner::Basic driven through a gate-controlled test double; "
                "its hooked linearization points validated by TLC against the same monitor (Trace_Runner.tla)")
